@@ -59,3 +59,12 @@ Theorem C13_nonstrict_ignores_logical_type :
     (forall o, r <> ROptions o) -> decode_row ig ak po r st = decode_row ig ak po' r st.
 Proof. exact nonstrict_ignores_logical. Qed.
 Print Assumptions C13_nonstrict_ignores_logical_type.
+
+(* The options row on the wire: any options with field values below 2^32 and ANY stream name (an
+   arbitrary byte string, so any UTF-8 text) survive protobuf serialisation and parsing unchanged. *)
+From PJ.Model Require Import Wire.
+From PJ.Proofs Require Import WireProofs WireRT.
+Theorem C13_options_row_wire_round_trip :
+  forall o : woptions, wf_options o -> nlen (ser_options o) < varint_max -> parse_options (ser_options o) = Some o.
+Proof. exact parse_options_ser. Qed.
+Print Assumptions C13_options_row_wire_round_trip.
